@@ -72,6 +72,7 @@ def check(ctx, rep):
                     rep.sample({"rule": "T-SAT", "class": key, "extracted": val, "reference": exp, "example": ex})
     rep.analysed_item("range::BoundSet::satisfies interpreted on %d realisable gate valuations over 9 bound shapes" % total)
     range_satisfies(ctx, rep, prog, env)
+    version_satisfies(ctx, rep, prog, env)
     range_any(rep, prog, env)
     if rep.inconclusive:
         witness(rep, prog, env)
@@ -123,7 +124,11 @@ def _rsat_worker(args):
         from ..interp import Adt, ListV
         R = Adt("range::Range", 0, (ListV(sets),))
         run = intervals.Run(prog, env)
-        st, val = run.call("range::Range::satisfies", [Ptr(Cell(R)), Ptr(Cell(tk["V"]))])
+        entry = _RS.get("entry", "range::Range::satisfies")
+        if _RS.get("swap"):
+            st, val = run.call(entry, [Ptr(Cell(tk["V"])), Ptr(Cell(R))])
+        else:
+            st, val = run.call(entry, [Ptr(Cell(R)), Ptr(Cell(tk["V"]))])
         exp = any(_ref_alt(k, t, tk["V"]) for k, t in alts)
         key = "alternatives=%s order:%s pre:%s same-tuple:%s" % (
             "+".join(k[0] for k, _ in alts), intervals.order_str({t: tk[t].val for t in toks_order}),
@@ -137,14 +142,13 @@ def _rsat_worker(args):
 _RS = {}
 
 
-def range_satisfies(ctx, rep, prog, env):
+def range_satisfies(ctx, rep, prog, env, entry="range::Range::satisfies", rule="R-SAT", swap=False):
     """R-SAT: Range::satisfies on one or two one-token alternatives (an exact version, `>=t`, `<t`) over every
     realisable valuation of the gate atoms of (V, t1, t2): the answer is the OR of the per-alternative answers —
     in particular a prerelease tag in one alternative never opens the gate for another alternative's bounds."""
     import multiprocessing as mp
     import os
-    rule = "R-SAT"
-    rep.rule(rule, 5000, "Range::satisfies = OR over alternatives of (within that alternative's bounds AND its own gate)")
+    rep.rule(rule, 5000, "%s = OR over alternatives of (within that alternative's bounds AND its own gate)" % entry)
     jobs = []
     t1, w1 = V.gate_worlds(["V", "L"])
     for ka in ALT_SHAPES:
@@ -158,7 +162,7 @@ def range_satisfies(ctx, rep, prog, env):
         for kb in ALT_SHAPES:
             for sig in sigs2:
                 jobs.append((ka, kb, sig, t2))
-    _RS.update(prog=prog, env=env)
+    _RS.update(prog=prog, env=env, entry=entry, swap=swap)
     procs = min(16, os.cpu_count() or 1)
     n = max(1, len(jobs) // (procs * 8))
     chunks = [jobs[i:i + n] for i in range(0, len(jobs), n)]
@@ -170,15 +174,61 @@ def range_satisfies(ctx, rep, prog, env):
             if st == "inconclusive":
                 rep.inconc("%s: %s" % (rule, inc[0]), inc[1])
             elif st == "panic":
-                rep.fail(rule, "range::Range::satisfies|%s|panic" % rule, "panics: %s (%s)" % (val, key))
+                rep.fail(rule, "%s|%s|panic" % (entry, rule), "panics: %s (%s)" % (val, key))
             elif val == exp:
                 rep.ok(rule)
             else:
                 coarse = key.split(" order:")[0]
-                rep.fail(rule, "range::Range::satisfies|%s|%s" % (rule, coarse),
+                rep.fail(rule, "%s|%s|%s" % (entry, rule, coarse),
                          "answered %s, the OR of the alternatives' own answers is %s (%s)" % (val, exp, key),
                          example=">=1.0.0 <2.0.0 || 1.5.0-alpha  vs  1.5.0-beta")
-    rep.analysed_item("range::Range::satisfies interpreted on %d (alternative shapes, gate valuation) cases" % len(jobs))
+    rep.analysed_item("%s interpreted on %d (alternative shapes, gate valuation) cases" % (entry, len(jobs)))
+
+
+def version_satisfies(ctx, rep, prog, env):
+    """E-VERSION-SATISFIES: the second public entry point, `Version::satisfies(&self, &Range)`. Either it hands its two
+    arguments to Range::satisfies and returns the answer unchanged (decided by interpreting it with Range::satisfies
+    replaced by a stub that returns a marked value), or it is tabled like Range::satisfies itself (R-SAT-VERSION)."""
+    from ..interp import Interp, Policy, Adt, ListV
+    rule = "E-VERSION-SATISFIES"
+    key = "Version::satisfies"
+    rep.rule(rule, 1, "Version::satisfies answers what Range::satisfies answers")
+    if not prog.has_body(key):
+        cands = [k for k in prog.bodies if k.endswith("::satisfies")]
+        rep.inconc("%s: Version::satisfies not found (functions named satisfies: %s)" % (rule, cands))
+        return
+    calls = []
+    marker = [True]
+
+    class Marked(int):
+        pass
+
+    def stub(interp, args, info):
+        calls.append((interp.strip(args[0]), interp.strip(args[1])))
+        return marker[0]
+    R = Adt("range::Range", 0, (ListV([]),))
+    v = V.gate_token("V", 0, False, (0,) * len(V.FIELDS), prog) if hasattr(V, "FIELDS") else None
+    delegated = True
+    for answer in (True, False):
+        marker[0] = answer
+        del calls[:]
+        it = Interp(prog, Policy(), overrides={"range::Range::satisfies": stub})
+        try:
+            r = it.call_body(key, [Ptr(Cell(v)), Ptr(Cell(R))])
+        except Exception:
+            delegated = False
+            break
+        if not (r is answer and len(calls) == 1 and calls[0][0] is R and calls[0][1] is v):
+            delegated = False
+            break
+    if delegated:
+        rep.ok(rule)
+        rep.analysed_item("Version::satisfies interpreted with Range::satisfies stubbed: one call with (range, self), answer "
+                          "returned unchanged")
+        return
+    rep.notes.append("%s: Version::satisfies does not simply delegate; tabled like Range::satisfies (R-SAT-VERSION)" % rule)
+    rep.ok(rule)
+    range_satisfies(ctx, rep, prog, env, entry=key, rule="R-SAT-VERSION", swap=True)
 
 
 def witness(rep, prog, env):
